@@ -1119,6 +1119,232 @@ def observe_real_family(fam, d, sbx):
 
 
 # ---------------------------------------------------------------------------------------------------------
+# Experiment 4: a catalog of suite-supplied instructions (every instruction family of before-assert / assert / cleanup, a
+# symbol reference in every syntactic position) over cases that define the symbols differently - also not at all, or with a
+# wrong type - and that set their own [conf].  Purely differential: in the suite run / in consecutive --suite runs of one
+# process vs alone in a fresh process.
+# Entry: (id, {phase: suite lines}, {symbol: ([valid definitions, different values], [invalid definitions; None = undefined])})
+# (suite [setup] instructions cannot refer to symbols of the case: the suite's setup comes before the case's.)
+# ---------------------------------------------------------------------------------------------------------
+LOG = '>> "$C17_LOG"'
+CATALOG = [
+ ('int-expr', {'assert': ['stdout num-lines == @[N]@']},
+  {'N': (['def string N = 3', 'def string N = 2', 'def string N = 1+2'], [None, 'def list N = 3', 'def string N = abc'])}),
+ ('heredoc', {'assert': ['stdout equals <<EOF', '@[L1]@', 'beta', 'gamma', 'EOF']},
+  {'L1': (['def string L1 = alpha', 'def string L1 = other'], [None, 'def path L1 = -rel-result x'])}),
+ ('string-arg', {'assert': ['stderr any line : contents equals "@[E]@"']},
+  {'E': (['def string E = oops', 'def string E = nope'], [None])}),
+ ('regex', {'assert': ['stdout any line : contents matches @[RE]@']},
+  {'RE': (['def string RE = ^be', 'def string RE = ^zz'], [None, 'def string RE = (', 'def list RE = a b'])}),
+ ('regex-full', {'assert': ['stdout every line : contents matches -full "@[RE2]@"']},
+  {'RE2': (['def string RE2 = [a-z]+', 'def string RE2 = [a-c]+'], [None])}),
+ ('line-nums', {'assert': ['stdout -transformed-by filter -line-nums @[R]@', '  equals <<EOF', '@[X]@', 'EOF']},
+  {'R': (['def string R = 2', 'def string R = 1', 'def string R = 3'], [None, 'def string R = x']),
+   'X': (['def string X = beta', 'def string X = alpha', 'def string X = gamma'], [None])}),
+ ('tt-def-use', {'before-assert': ['def text-transformer T = filter -line-nums @[N2]@'],
+                 'assert': ['stdout -transformed-by T equals @[EXPECTED]@']},
+  {'N2': (['def string N2 = 2', 'def string N2 = 3', 'def string N2 = 1'], [None]),
+   'EXPECTED': (['def string EXPECTED = <<EOF\nbeta\nEOF', 'def string EXPECTED = <<EOF\ngamma\nEOF', 'def string EXPECTED = <<EOF\nalpha\nEOF'], [None])}),
+ ('tt-sym', {'assert': ['stdout -transformed-by TT num-lines == 1']},
+  {'TT': (['def text-transformer TT = filter contents matches alpha', 'def text-transformer TT = identity',
+           'def text-transformer TT = filter -line-nums 2'], [None, 'def string TT = identity'])}),
+ ('tm-sym', {'assert': ['stdout TM']},
+  {'TM': (['def text-matcher TM = num-lines == 3', 'def text-matcher TM = is-empty'], [None, 'def string TM = is-empty'])}),
+ ('im-sym', {'assert': ['exit-code IM']},
+  {'IM': (['def integer-matcher IM = == 0', 'def integer-matcher IM = > 0'], [None, 'def text-matcher IM = is-empty'])}),
+ ('exit-int', {'assert': ['exit-code == @[EC]@']},
+  {'EC': (['def string EC = 0', 'def string EC = 1'], [None, 'def string EC = zero'])}),
+ ('contents-path', {'assert': ['contents @[P]@ : num-lines == 3']},
+  {'P': (['def string P = data.txt', 'def string P = d/x.txt'], [None])}),
+ ('path-sym', {'assert': ['contents @[PS]@ : ! is-empty']},
+  {'PS': (['def path PS = data.txt', 'def path PS = -rel-act d/y.log', 'def path PS = -rel-tmp none.txt'], [None, 'def text-matcher PS = is-empty'])}),
+ ('rel-sym', {'assert': ['exists -rel DS x.txt : type file']},
+  {'DS': (['def path DS = -rel-act d', 'def path DS = -rel-act .'], [None, 'def string DS = d'])}),
+ ('fm-sym', {'assert': ['exists data.txt : FM']},
+  {'FM': (['def file-matcher FM = type file', 'def file-matcher FM = type dir'], [None, 'def string FM = x'])}),
+ ('glob', {'assert': ['dir-contents d : -selection name @[GLOB]@ num-files == 1']},
+  {'GLOB': (['def string GLOB = *.txt', 'def string GLOB = *.none', 'def string GLOB = *'], [None])}),
+ ('fsm-sym', {'assert': ['dir-contents d : FSM']},
+  {'FSM': (['def files-matcher FSM = num-files == 2', 'def files-matcher FSM = is-empty'], [None, 'def file-matcher FSM = type dir'])}),
+ ('files-cond', {'assert': ['dir-contents d : matches { @[F1]@ : type file', 'y.log }']},
+  {'F1': (['def string F1 = x.txt', 'def string F1 = z.txt'], [None])}),
+ ('pgm-sym', {'assert': ['run @ PGM']},
+  {'PGM': (['def program PGM = % true', 'def program PGM = % false'], [None, 'def string PGM = true'])}),
+ ('pgm-arg', {'assert': ['% grep -q @[A]@ data.txt']},
+  {'A': (['def string A = alpha', 'def string A = beta'], [None])}),
+ ('list-arg', {'before-assert': ['% sh -c \'echo "list $#: $*" ' + LOG + '\' sh @[LST]@']},
+  {'LST': (['def list LST = a b', 'def list LST = c', 'def string LST = e'], [None])}),
+ ('shell-str', {'assert': ['$ test "@[S]@" = "v1"']},
+  {'S': (['def string S = v1', 'def string S = v2'], [None])}),
+ ('stdin', {'assert': ['run % grep -q needle', '  -stdin @[IN]@']},
+  {'IN': (['def string IN = "a needle"', 'def string IN = hay'], [None])}),
+ ('def-derived', {'before-assert': ['def string DERIVED = "@[BASE]@-x"', '$ echo "derived @[DERIVED]@" ' + LOG]},
+  {'BASE': (['def string BASE = b1', 'def string BASE = b2'], [None])}),
+ ('file-str', {'cleanup': ['file -rel-tmp out.txt = "@[FS]@"', '$ echo "file $(cat @[EXACTLY_TMP]@/out.txt)" ' + LOG]},
+  {'FS': (['def string FS = f1', 'def string FS = f2'], [None])}),
+ ('file-contents-of', {'before-assert': ['file -rel-tmp copy.txt = -contents-of @[SRC]@', '$ echo "copy $(cat @[EXACTLY_TMP]@/copy.txt | tr \'\\n\' ,)" ' + LOG]},
+  {'SRC': (['def path SRC = -rel-act data.txt', 'def path SRC = -rel-act d/x.txt'], [None, 'def string SRC = data.txt'])}),
+ ('file-stdout-from', {'before-assert': ['file -rel-tmp po.txt = -stdout-from @ PG2', '$ echo "po $(cat @[EXACTLY_TMP]@/po.txt)" ' + LOG]},
+  {'PG2': (['def program PG2 = % echo one', 'def program PG2 = % echo two'], [None])}),
+ ('dir-name', {'cleanup': ['dir -rel-tmp @[DN]@', '$ echo "dirs $(ls @[EXACTLY_TMP]@ | tr \'\\n\' ,)" ' + LOG]},
+  {'DN': (['def string DN = n1', 'def string DN = n2'], [None])}),
+ ('env-val', {'before-assert': ['env C17_VAL = @[EV]@', '$ echo "env $C17_VAL" ' + LOG]},
+  {'EV': (['def string EV = e1', 'def string EV = e2'], [None])}),
+ ('cd-dir', {'cleanup': ['cd @[CD]@', '$ echo "cwd $(basename $(pwd))" ' + LOG]},
+  {'CD': (['def string CD = d', 'def string CD = .'], [None])}),
+ ('timeout-int', {'before-assert': ['timeout = @[TMO]@', '$ echo timeout-ok ' + LOG]},
+  {'TMO': (['def string TMO = 40', 'def string TMO = 30+5'], [None, 'def string TMO = soon'])}),
+ ('lm-sym', {'assert': ['stdout any line : LM']},
+  {'LM': (['def line-matcher LM = contents equals beta', 'def line-matcher LM = line-num == 9'], [None, 'def string LM = x'])}),
+ ('replace', {'assert': ['stdout -transformed-by replace @[FROM]@ @[TO]@ any line : contents equals ZZta']},
+  {'FROM': (['def string FROM = be', 'def string FROM = al'], [None]),
+   'TO': (['def string TO = ZZ', 'def string TO = YY'], [None])}),
+ ('stdout-from', {'assert': ['stdout -from @ PG3', '  equals <<EOF', '@[OUT3]@', 'EOF']},
+  {'PG3': (['def program PG3 = % echo one', 'def program PG3 = % echo two'], [None, 'def string PG3 = echo']),
+   'OUT3': (['def string OUT3 = one', 'def string OUT3 = two'], [None])}),
+ ('pgm-transformed', {'assert': ['stdout -from % cat data.txt', '  -transformed-by TT4', '  num-lines == @[N4]@']},
+  {'TT4': (['def text-transformer TT4 = filter contents matches ^a', 'def text-transformer TT4 = identity'], [None]),
+   'N4': (['def string N4 = 1', 'def string N4 = 3'], [None])}),
+ ('text-source', {'before-assert': ['file -rel-tmp ts.txt = @[TS]@', '$ echo "ts $(cat @[EXACTLY_TMP]@/ts.txt)" ' + LOG]},
+  {'TS': (['def text-source TS = "t1"', 'def text-source TS = -contents-of -rel-act data.txt', 'def string TS = t3'], [None, 'def path TS = data.txt'])}),
+ ('files-source', {'cleanup': ['dir -rel-tmp made = { file @[FN]@ = "c" }', '$ echo "made $(ls @[EXACTLY_TMP]@/made | tr \'\\n\' ,)" ' + LOG]},
+  {'FN': (['def string FN = m1', 'def string FN = m2'], [None])}),
+ ('copy', {'before-assert': ['copy @[CSRC]@ copied', '$ echo "copied $(test -d copied && echo dir || echo file)" ' + LOG]},
+  {'CSRC': (['def path CSRC = -rel-act data.txt', 'def path CSRC = -rel-act d'], [None])}),
+]
+
+CAT_FIXED_SETUP = ['file data.txt = <<EOF', 'alpha', 'beta', 'gamma', 'EOF', 'dir d', 'file d/x.txt = "x"', 'file d/y.log = "y"']
+CAT_ACT = "printf 'alpha\\nbeta\\ngamma\\n'; printf 'oops\\n' >&2"
+CAT_CONF = [['status = SKIP'], ['status = FAIL'], ['actor = null'], ['actor = source % sh'], ['home = hd'], ['act-home = hd'],
+            ['actor = source % sh', 'home = hd'], ['status = FAIL', 'act-home = hd']]
+
+
+def gen_cat_family(rng):
+    """-> a self-contained family: suite phase contents, cases (conf lines, definitions), orders"""
+    k = rng.choice([1, 1, 2, 2, 3])
+    entries = rng.sample(CATALOG, k)
+    suite = {}
+    for _, phases, _ in entries:
+        for ph, lines in phases.items():
+            suite.setdefault(ph, []).extend(lines)
+    n = rng.randint(3, 4)
+    cases = []
+    for i in range(n):
+        defs = []
+        for _, _, syms in entries:
+            names = list(syms)
+            coupled = rng.below(3) if rng.chance(0.6) else None  # the same variant for all symbols of the entry: they fit together
+            for name in names:
+                valid, invalid = syms[name]
+                if rng.chance(0.22):
+                    d = rng.choice(invalid)  # wrongly defined: not at all, or with a type / value the reference does not accept
+                else:
+                    j = coupled if coupled is not None else rng.below(len(valid))
+                    d = valid[min(j, len(valid) - 1)] if coupled is not None else valid[j]
+                if d is not None:
+                    defs.append(d)
+        conf = list(rng.choice(CAT_CONF)) if rng.chance(0.35) else []
+        cases.append({'conf': conf, 'defs': defs})
+    idx = list(range(n))
+    orders = []
+    for _ in range(3):
+        o = list(idx)
+        rng.shuffle(o)
+        if o not in orders:
+            orders.append(o)
+    rep = list(idx)
+    rng.shuffle(rep)
+    orders.append(rep + [rep[0]])
+    return {'entries': [e[0] for e in entries], 'suite': suite, 'cases': cases, 'orders': orders}
+
+
+def cat_suite_text(fam, cases):
+    out = ['[cases]'] + list(cases)
+    for ph in ('before-assert', 'assert', 'cleanup'):
+        if fam['suite'].get(ph):
+            out += ['[%s]' % ph] + fam['suite'][ph]
+    return '\n'.join(out) + '\n'
+
+
+def cat_case_text(c):
+    sh = any(l.startswith('actor = source') for l in c['conf'])
+    out = (['[conf]'] + c['conf'] if c['conf'] else []) + ['[setup]'] + CAT_FIXED_SETUP + c['defs']
+    out += ['[act]', CAT_ACT if sh else '$ ' + CAT_ACT]
+    # what the case itself sees of the conf settings (its own, or - if they leaked - another case's)
+    out += ['[cleanup]', '$ echo "home @[EXACTLY_HOME]@ act-home @[EXACTLY_ACT_HOME]@" ' + LOG]
+    return '\n'.join(out) + '\n'
+
+
+def _digest(ident, text):
+    import zlib
+    return (zlib.crc32(ident.encode()), [zlib.crc32(l.encode()) for l in text.split('\n') if l])
+
+
+def observe_cat_family(fam, d, sbx):
+    os.makedirs(os.path.join(d, 'hd'), exist_ok=True)
+    n = len(fam['cases'])
+    for i, c in enumerate(fam['cases']):
+        with open(os.path.join(d, 'c%d.case' % i), 'w') as f:
+            f.write(cat_case_text(c))
+    with open(os.path.join(d, 'only.suite'), 'w') as f:
+        f.write(cat_suite_text(fam, []))
+    runner = os.path.join(common.REPO, 'src', 'default-main-program-runner.py')
+    procs = []
+    for i in range(n):
+        tmp = os.path.join(d, 'tmp%d' % i)
+        os.makedirs(tmp)
+        log = os.path.join(d, 'alone%d.log' % i)
+        env = dict(os.environ, PYTHONPATH=os.path.join(common.REPO, 'src'), PYTHONWARNINGS='ignore', TMPDIR=tmp, C17_LOG=log)
+        procs.append((log, subprocess.Popen([sys.executable, runner, '--suite', 'only.suite', 'c%d.case' % i], cwd=d, env=env,
+                                            stdout=subprocess.PIPE, stderr=subprocess.DEVNULL, text=True)))
+    alone = []
+    for log, p in procs:
+        out, _ = p.communicate(timeout=180)
+        ident = (out.strip().splitlines() or ['?'])[0]
+        alone.append((ident, open(log).read() if os.path.exists(log) else ''))
+    mp = impl.main_program(sbx)
+    log = os.path.join(d, 'LOG')
+    os.environ['C17_LOG'] = log
+    scratch = os.path.join(d, 'scratch')
+    os.makedirs(scratch, exist_ok=True)
+    runs = []
+    old = os.getcwd()
+    try:
+        for k, order in enumerate(fam['orders']):
+            with open(os.path.join(d, 'o%d.suite' % k), 'w') as f:
+                f.write(cat_suite_text(fam, ['c%d.case' % i for i in order]))
+            if os.path.exists(log):
+                os.remove(log)
+            code, cases, out = run_suite(mp, 'o%d.suite' % k, d, log)
+            os.chdir(old)
+            runs.append({'order': order, 'mode': 'suite', 'obs': [(ident, text) for _, _, ident, text in cases],
+                         'note': '' if len(cases) == len(order) else 'suite run reported %d cases: %s' % (len(cases), out[-300:])})
+            obs = []
+            for i in order:
+                ident, text = run_alone(mp, ['--suite', 'o%d.suite' % k, 'c%d.case' % i], d, scratch, log)
+                obs.append((ident, text))
+            runs.append({'order': order, 'mode': 'standalone with --suite, one after the other', 'obs': obs, 'note': ''})
+    finally:
+        os.chdir(old)
+        os.environ.pop('C17_LOG', None)
+    return {'files': dict([('c%d.case' % i, cat_case_text(c)) for i, c in enumerate(fam['cases'])] +
+                          [('SUITE (cases listed in the given order)', cat_suite_text(fam, []))]),
+            'alone': alone, 'runs': runs}
+
+
+def load_corpus():
+    d = os.path.join(common.VERIF, 'harness', 'corpus', 'C17')
+    out = []
+    if os.path.isdir(d):
+        for fn in sorted(os.listdir(d)):
+            if fn.endswith('.json'):
+                fam = json.load(open(os.path.join(d, fn)))
+                fam['corpus'] = fn
+                out.append(fam)
+    return out
+
+
+# ---------------------------------------------------------------------------------------------------------
 # workers
 # ---------------------------------------------------------------------------------------------------------
 def _worker(job):
@@ -1140,6 +1366,8 @@ def _worker(job):
                     out.append(('ok', observe_stub_history(item, d)))
                 elif kind == 'real':
                     out.append(('ok', observe_real_family(item, d, sbx)))
+                elif kind == 'cat':
+                    out.append(('ok', observe_cat_family(item, d, sbx)))
                 else:
                     raise ValueError(kind)
             except Exception as ex:  # fail-closed: reported as a harness error
@@ -1219,6 +1447,31 @@ def run(ctx, res, scale=1):
                 res.count('exp2 identifier ' + o['result'])
             if any(sc['m2'] or sc['usages'] for sc in h['scripts']):
                 res.nontrivial.add(json.dumps([obs['case_files'], h['order'], h['mode']], sort_keys=True))
+    # ---- experiment 4 (the regression corpus first)
+    n_cat = (22 if ctx.quick else 300) * scale
+    cats = load_corpus() + [gen_cat_family(rng) for _ in range(n_cat)]
+    for fam, (st, obs) in zip(cats, run_parallel(ctx, 'cat', cats)):
+        if st != 'ok':
+            res.errors.append('catalog experiment failed to run: ' + obs)
+            continue
+        for r in obs['runs']:
+            alone = [obs['alone'][i] for i in r['order']]
+            d = {'experiment': 'suite catalog', 'corpus': fam.get('corpus'), 'catalog_entries': fam.get('entries'), 'files': obs['files'],
+                 'order': ['c%d.case' % i for i in r['order']], 'run as': r['mode'],
+                 'observed (identifier, probe lines)': r['obs'], 'alone with --suite in a fresh process': alone, 'note': r['note']}
+
+            def c_pairs(l):
+                return c_list(['(%s, %s)' % (cN(a), c_list([cN(x) for x in b], 'N')) for a, b in (_digest(*x) for x in l)],
+                              '(N * list N)')
+
+            terms.append('(KDiff (DiffCase %s %s))' % (c_pairs(r['obs']), c_pairs(alone)))
+            meta.append(d)
+            res.count('exp4 runs as ' + r['mode'])
+            for e in fam.get('entries') or ['corpus']:
+                res.count('exp4 catalog entry ' + e)
+            for ident, _ in r['obs']:
+                res.count('exp4 identifier ' + ident)
+            res.nontrivial.add(json.dumps([obs['files'], r['order'], r['mode']], sort_keys=True))
     # ---- experiment 3
     n_stub = (360 if ctx.quick else 6000) * scale
     hists = [gen_stub_history(rng) for _ in range(n_stub)]
@@ -1258,7 +1511,16 @@ def run(ctx, res, scale=1):
                 'and shared predefined symbols: stub instructions define / refer to symbols, chdir and put symbols before the sandbox '
                 'exists, and in setup set / unset variables through InstructionSettings and SetupSettingsBuilder, set the timeout, put '
                 'symbols, chdir in and out of the sandbox, create files; every view (environment, act environment, timeout, symbols, '
-                'cwd, files) is recorded at validation, at the start of setup and in cleanup. non-trivial / distinct likewise.')
+                'cwd, files) is recorded at validation, at the start of setup and in cleanup. non-trivial / distinct likewise. '
+                'exp4: the regression corpus, then families of 3-4 cases under a suite whose before-assert / assert / cleanup contents are '
+                '1-3 entries of a catalog of @N@ instruction shapes (stdout / stderr / exit-code / contents / exists / dir-contents / run / '
+                '$ / % / def / file / dir / copy / env / cd / timeout; a symbol reference as integer expression, string, here-document, '
+                'regex, glob, line-number range, path, -rel SYMBOL, list, program argument, -stdin, FILE-LIST entry, files-source, and as '
+                'reference to a text-transformer / text-matcher / line-matcher / integer-matcher / file-matcher / files-matcher / program '
+                '/ text-source symbol); each case defines each symbol with one of 2-3 different values or (22%) wrongly (not at all, '
+                'wrong type, unparsable value); 35% of the cases set status / actor / home / act-home in their own [conf]; 4 orders '
+                '(one with a repeated case), each as suite run and as consecutive --suite runs of one MainProgram, against every case '
+                'alone with --suite in a fresh process. all non-trivial; distinct := distinct (files, order, mode).').replace('@N@', str(len(CATALOG)))
     res.evaluations = len(terms)
     by_exp = {}
     for m in meta:
@@ -1273,7 +1535,9 @@ def run(ctx, res, scale=1):
         res.disagreements.append(Failure('correspondence', meta[i], 'model differs from the real program'))
 
 
-WHAT = {'stub history': 'a case run after others (one executor, shared environment dictionary / predefined symbols) did not see or do '
+WHAT = {'suite catalog': 'a case of a suite whose instructions refer to symbols / settings of the case did not get the identifier and '
+                         'probe output, in the run, that it gets alone with --suite in a fresh process',
+        'stub history': 'a case run after others (one executor, shared environment dictionary / predefined symbols) did not see or do '
                         'what it sees and does alone; or the shared objects, cwd or os.environ were not as before',
         'real history': 'a case run after others in one process did not write the probes / get the identifier it gets in a fresh process',
         'suite contents': 'a case run in the suite, alone with --suite and alone beside exactly.suite did not give the same identifier '
